@@ -126,9 +126,10 @@ pub fn gen(rng: &mut Rng, thorough: bool, out: &mut Sink) {
                 }
             }
         }
-        // 10^5-long sequence (thorough)
+        // a long sequence (thorough): 10^4 ids (the list-based model appends quadratically; 10^5 ids on each of the
+        // 24 shipped models took over half an hour of driver time)
         if thorough {
-            let ids: Vec<u32> = (0..100_000).map(|_| *rng.pick(&valid)).collect();
+            let ids: Vec<u32> = (0..10_000).map(|_| *rng.pick(&valid)).collect();
             if let Some(l) = dec_line(&tk, &ids, true) {
                 lines.push(l);
             }
